@@ -138,6 +138,10 @@ impl Family for IsoFam {
     fn reset_globals() {
         LIVE.with(|l| l.set(0));
     }
+    /// every spawned closure owns a drop-counted value
+    fn capture(_o: &IObjs, _child: usize) -> Option<Box<dyn std::any::Any + Send>> {
+        Some(Box::new(Guard::new()))
+    }
     fn yields(op: &IOp) -> Option<bool> {
         Some(matches!(op, IOp::Yield))
     }
@@ -218,6 +222,24 @@ pub fn program_set(_set: &str) -> Vec<Program<IsoFam>> {
         (vec![Lock, MakeGuard, OnceCall, Unlock, TlsBump], vec![vec![Lock, LazyGet, MakeGuard, Unlock]]),
         (vec![LabelGet, LabelScope(5), Yield, LabelGet], vec![vec![LabelGet, Yield, LabelScope(6), LabelGet]]),
         (vec![LabelGet, Lock, LabelScope(7), Unlock, Counters], vec![vec![LabelGet, Lock, LabelScope(8), Yield, Unlock], vec![LabelGet]]),
+        // three children (more tasks than the other bodies: as predecessors of a smaller body they
+        // leave more task slots, stacks and thread-local storage behind)
+        (vec![Counters], vec![vec![TlsBump, MakeGuard], vec![LazyGet, Me], vec![OnceCall, TlsBump, Counters]]),
+        (vec![TlsBump], vec![vec![Me]]),
+        (vec![Lock, Yield, Unlock], vec![vec![Lock, MakeGuard, Unlock, Me], vec![Me, Yield, LabelSet(4)], vec![LabelGet, TlsBump]]),
+        (vec![Me, LazyGet, OnceCall, LabelGet, Counters], vec![]),
     ];
-    bodies.into_iter().map(|(m, ch)| Program::fork_join((), m, ch)).collect()
+    let mut out: Vec<Program<IsoFam>> = bodies.into_iter().map(|(m, ch)| Program::fork_join((), m, ch)).collect();
+    // nested spawning: the grandchild exists only late in an execution
+    let g = |ops: &[IOp]| -> Vec<GOp<IOp>> { ops.iter().cloned().map(GOp::Op).collect() };
+    {
+        let mut t1 = vec![GOp::Spawn(2)];
+        t1.extend(g(&[TlsBump, MakeGuard]));
+        t1.push(GOp::Join(2));
+        out.push(Program {
+            cfg: (),
+            threads: vec![vec![GOp::Spawn(1), GOp::Op(LazyGet), GOp::Join(1), GOp::Op(Counters)], t1, g(&[OnceCall, Me, TlsBump])],
+        });
+    }
+    out
 }
